@@ -49,6 +49,13 @@ inductive ArgErr where
   | notUtf8
 deriving DecidableEq, Repr
 
+instance : DecidableEq (Except ArgErr (List FT)) := fun x y =>
+  match x, y with
+  | .ok a, .ok b => if h : a = b then isTrue (by rw [h]) else isFalse (fun e => h (by cases e; rfl))
+  | .error a, .error b => if h : a = b then isTrue (by rw [h]) else isFalse (fun e => h (by cases e; rfl))
+  | .ok _, .error _ => isFalse (fun e => by cases e)
+  | .error _, .ok _ => isFalse (fun e => by cases e)
+
 /-- one `#[arg(long)] excl_…: Option<Regex>` -/
 def compileOpt : Option (List Nat) → Except ArgErr (Option Ast)
   | none => .ok none
@@ -127,6 +134,13 @@ def escapeText (cs : Chars) : Chars := cs.flatMap fun c => if isMeta c then [92,
 (beyond that the size estimate `Regex.cost` no longer vouches for the 10 MiB limit) -/
 def OkText (t : Option Chars) : Prop :=
   ∀ cs, t = some cs → (∀ c ∈ cs, isScalar c = true) ∧ cs.length ≤ 19000
+
+/-- … made of ASCII chars only -/
+def AsciiText (t : Option Chars) : Prop := ∀ cs, t = some cs → ∀ b ∈ cs, b < 128
+
+/-- an option value that is its own literal pattern: ASCII, no meta character, at most 19000 chars -/
+def PlainAscii (t : Option (List Nat)) : Prop :=
+  ∀ cs, t = some cs → (∀ b ∈ cs, b < 128 ∧ isMeta b = false) ∧ cs.length ≤ 19000
 
 /-- the command-line value (UTF-8 bytes) that makes a marker option look for the literal text `cs` -/
 def litArg (t : Option Chars) : Option (List Nat) := t.map fun cs => encAll (escapeText cs)
